@@ -1,12 +1,23 @@
-import BridgeVerif.Core
-import BridgeVerif.Model.Score
-import BridgeVerif.Model.Auction
-import BridgeVerif.Spec.Scoring
-import BridgeVerif.Spec.Laws
-import BridgeVerif.Lemmas.Imps
-import BridgeVerif.Lemmas.Auction
+-- the whole development: importing every property module makes `lake build BridgeVerif` check that all of them are
+-- consistent with each other (no clashing declarations) and pre-builds what the checks need
 import BridgeVerif.Props.C01
 import BridgeVerif.Props.C02
 import BridgeVerif.Props.C03
+import BridgeVerif.Props.C04
+import BridgeVerif.Props.C05
+import BridgeVerif.Props.C06
 import BridgeVerif.Props.C07
+import BridgeVerif.Props.C08
+import BridgeVerif.Props.C09
+import BridgeVerif.Props.C10
+import BridgeVerif.Props.C11
+import BridgeVerif.Props.C11a
+import BridgeVerif.Props.C12
+import BridgeVerif.Props.C13
+import BridgeVerif.Props.C14
+import BridgeVerif.Props.C15
 import BridgeVerif.Props.C16
+import BridgeVerif.Props.C17
+import BridgeVerif.Props.C18
+import BridgeVerif.Props.C19
+import BridgeVerif.Props.C20
